@@ -320,6 +320,10 @@ def run_config(mon: Monitor, cfg, workdir: str) -> None:
 
 
 PINNED = [
+    # band-last cubes (bands == rows == columns): the band axis cannot be told from the shape, the documented reading (and the DataArray's dims) say band-last (C15-9)
+    dict(ny=3, nx=3, layout="YXS", ns=3, dtype="uint8", nodata=None, crs="EPSG:3857", rotated=False, blocksize=None, ovr_blocksize=None, overviews="default", windowed=False, intermediate=False, dest="file", existing=None, api="write_cog", data_seed=33),
+    dict(ny=4, nx=4, layout="YXS", ns=4, dtype="int16", nodata=-9999, crs="EPSG:4326", rotated=False, blocksize=16, ovr_blocksize=None, overviews="default", windowed=False, intermediate=False, dest="mem", existing=None, api="layers", data_seed=34),
+    dict(ny=16, nx=16, layout="YXS", ns=16, dtype="float32", nodata=None, crs="EPSG:32633", rotated=False, blocksize=16, ovr_blocksize=None, overviews=[2], windowed=True, intermediate=False, dest="file", existing=None, api="write_cog", data_seed=35),
     # rasters in user-defined CRSs that PROJ would "identify" as a registered one (C15-7: file created with EPSG:<guess> instead of the definition)
     dict(ny=40, nx=50, layout="YX", ns=1, dtype="uint16", nodata=None, crs="+proj=utm +zone=33 +ellps=intl +units=m +no_defs", rotated=False, blocksize=None, ovr_blocksize=None, overviews="default", windowed=False, intermediate=False, dest="file", existing=None, api="write_cog", data_seed=31),
     dict(ny=64, nx=48, layout="SYX", ns=2, dtype="float32", nodata=-9999, crs="+proj=tmerc +lat_0=49 +lon_0=-2 +k=0.9996012717 +x_0=400000 +y_0=-100000 +ellps=airy +units=m +no_defs", rotated=False, blocksize=16, ovr_blocksize=16, overviews="external", windowed=False, intermediate=False, dest="mem", existing=None, api="layers", data_seed=32),
